@@ -441,4 +441,22 @@ for _f, _id in ((sign_invalid_children, "C14.SIGN-invalid-children"), (prov_edge
                 (pdom_sched, "C14.PDOM-sched"), (pdom_link_callback, "C14.PDOM-link-callback"), (data_swap, "C14.DATA-swap")):
     _f.rule_id = _id
 
-RULES = [sign_invalid_children, prov_edge_owner, guard_value, rcb_swap, dtab_latch, pdom_sched, pdom_link_callback, data_swap]
+def wmw_flags(ctx, prog):
+    R = "C14.WMW-flags"
+    ctx.rule(R, "ExpertNode.force_stale / will_fire_all_callbacks / num_invalid_children are written only by the audited "
+                "functions with the audited values")
+    from .shared import expert_flag_writers
+    expert_flag_writers(ctx, prog, R)
+
+
+def pdom_notify(ctx, prog):
+    R = "C14.PDOM-notify"
+    ctx.rule(R, "a changed node delivers child_changed to every live parent (queued or not)")
+    from .shared import every_parent_notified
+    every_parent_notified(ctx, prog, R)
+
+
+wmw_flags.rule_id = "C14.WMW-flags"
+pdom_notify.rule_id = "C14.PDOM-notify"
+
+RULES = [sign_invalid_children, prov_edge_owner, guard_value, rcb_swap, dtab_latch, pdom_sched, pdom_link_callback, data_swap, wmw_flags, pdom_notify]
